@@ -360,6 +360,30 @@ func (e *Enc) solveVia(w *worker, o *Obl, timeout int) *Verdict {
 		return v
 	}
 	v.Raw = resp.Raw
+	// goal splitting: a conjunction is proved conjunct by conjunct (each query is much easier for the solvers)
+	if parts := splitGoal(o.Goal.S); len(parts) > 1 {
+		all := true
+		solver := ""
+		for _, p := range parts {
+			o2 := *o
+			o2.Goal = Term{p, SBool}
+			r := w.ask(&workerReq{SMT: e.smtFor(&o2), Timeout: timeout})
+			v.Time += r.Secs
+			if r.Status == "sat" {
+				v.Status, v.Model, v.Raw, v.Solver = "refuted", r.Out, r.Out, r.Solver
+				return v
+			}
+			if r.Status != "unsat" {
+				all = false
+				break
+			}
+			solver = r.Solver
+		}
+		if all {
+			v.Status, v.Solver = "discharged", solver+"+goal-split"
+			return v
+		}
+	}
 	if len(o.Splits) > 1 {
 		// case split on the incoming edges of the last control-flow merge (sound: a cover query checks that the cases are exhaustive)
 		all := true
@@ -532,4 +556,57 @@ func persistentZ3(smt string, timeout int) (status, out string, secs float64, ok
 		pz = nil
 		return "unknown", "timeout (killed)", time.Since(t0).Seconds(), true
 	}
+}
+
+// splitGoal: "(and a b ...)" -> [a b ...]; "(=> g (and a b ...))" -> ["(=> g a)" ...]. Other goals: nil.
+func splitGoal(g string) []string {
+	if strings.HasPrefix(g, "(and ") {
+		return topLevelArgs(g[5 : len(g)-1])
+	}
+	if strings.HasPrefix(g, "(=> ") {
+		args := topLevelArgs(g[4 : len(g)-1])
+		if len(args) == 2 && strings.HasPrefix(args[1], "(and ") {
+			inner := topLevelArgs(args[1][5 : len(args[1])-1])
+			var out []string
+			for _, c := range inner {
+				out = append(out, "(=> "+args[0]+" "+c+")")
+			}
+			return out
+		}
+	}
+	return nil
+}
+
+func topLevelArgs(s string) []string {
+	var out []string
+	depth, start := 0, -1
+	for i := 0; i < len(s); i++ {
+		c := s[i]
+		switch {
+		case c == '(':
+			if depth == 0 && start < 0 {
+				start = i
+			}
+			depth++
+		case c == ')':
+			depth--
+			if depth == 0 && start >= 0 {
+				out = append(out, s[start:i+1])
+				start = -1
+			}
+		case c == ' ':
+			if depth == 0 && start >= 0 {
+				out = append(out, s[start:i])
+				start = -1
+			}
+		default:
+			if depth == 0 && start < 0 {
+				start = i
+			}
+		}
+	}
+	if start >= 0 {
+		out = append(out, s[start:])
+	}
+	return out
 }
